@@ -45,13 +45,17 @@ UKINDS = ["is", "fstr", "snap", "dirty", "is", "dirty"]
 @st.composite
 def _elem(draw, idx, depth, tier):
     """one element: {"type", "old" (desc of the runtime value of the old expression), "text", "tag", "op", "new"}"""
-    t = draw(st.sampled_from(["m", "m", "m", "u", "u", "nested"] if depth == 0 else ["m", "m", "u", "u"]))
+    t = draw(st.sampled_from(["m", "m", "m", "u", "u", "nested", "nested"] if depth == 0 else ["m", "m", "u", "u"]))
     op = draw(st.sampled_from(["same", "same", "changed", "deleted"]))
     fresh = ["int", 9000 + idx]
     if t == "m":
-        old = draw(st.one_of(st.integers(0, 20).map(lambda i: ["int", i]),
-                             st.text(alphabet="abc", max_size=3).map(lambda s: ["str", s]),
-                             st.lists(st.integers(0, 5).map(lambda i: ["int", i]), max_size=3).map(lambda xs: ["list", xs])))
+        # mostly values that are unique to this element (so that the alignment is decidable), sometimes
+        # small colliding ones
+        uniq = draw(st.sampled_from([True, True, False]))
+        b = 100 * idx if uniq else 0
+        old = draw(st.one_of(st.integers(0, 20).map(lambda i: ["int", b + i]),
+                             st.text(alphabet="abc", max_size=3).map(lambda s: ["str", (f"e{idx}" if uniq else "") + s]),
+                             st.lists(st.integers(0, 5).map(lambda i: ["int", b + i]), max_size=3).map(lambda xs: ["list", xs])))
         text = draw(gr.noisy(old, draw(st.sampled_from([0, 1, 2]))))
         return {"type": "m", "old": old, "text": text, "op": op, "new": fresh if op == "changed" else old}
     if t == "nested":
@@ -82,7 +86,8 @@ def _elem(draw, idx, depth, tier):
 
 @st.composite
 def _container(draw, depth, tier, base=0):
-    kind = draw(st.sampled_from(["list", "tuple", "dict", "call", "list", "dict"]))
+    kind = draw(st.sampled_from(["list", "tuple", "dict", "call", "list", "dict"] if depth == 0 else
+                                ["list", "tuple", "dict", "call", "call"]))
     n = draw(st.integers(1, 5 if depth == 0 else 3))
     if kind == "call":
         cls = draw(st.sampled_from(["Box", "Point", "APoint", "NT"]))
@@ -102,7 +107,27 @@ def _container(draw, depth, tier, base=0):
             e["key"] = draw(st.sampled_from([["str", f"k{j}"], ["int", j]]))
         elems.append(e)
     inserts = []
-    for _ in range(draw(st.integers(0, 2))):
+    # half of the containers are position-stable (nothing inserted or removed): there every changed
+    # element is a replacement in place and the fate of a user-controlled part is decidable
+    stable = draw(st.booleans())
+    if stable:
+        def unchanged_fresh(e):
+            if e["type"] == "dirty":
+                e["op"] = "same"
+                e["new"] = e["old"]
+            elif e["type"] != "nested":
+                e["op"] = "changed"
+                if e["type"] == "fstr":
+                    e["new"] = ["str", "q" + e["var"]]
+                else:
+                    e["new"] = ["int", 9500 + base + len(elems)]
+            else:
+                e["op"] = "same"
+
+        for e in elems:
+            if e["op"] == "deleted":
+                unchanged_fresh(e)
+    for _ in range(0 if stable else draw(st.integers(0, 2))):
         pos = draw(st.integers(0, n))
         v = ["int", 8000 + base + len(inserts)]
         inserts.append([pos, v, ["str", f"new{base}{len(inserts)}"]])
@@ -333,6 +358,12 @@ def must_survive(c, out, star_above=False):
     replaced = set()
     if len(mid_old) == len(mid_new) and all(veq3(a, b) is False for a in mid_old for b in mid_new):
         replaced = set(range(p, n - s))
+    # position-stable sequence whose only equal pairs are the in-place ones: the longest common
+    # subsequence is unique (the equal positions), every other position is a replacement in place
+    if (not c["inserts"] and not any(x["op"] == "deleted" for x in c["elems"]) and len(old_vals) == len(new_vals)
+            and all(veq3(old_vals[i], new_vals[j]) is False for i in range(n) for j in range(n) if i != j)
+            and all(veq3(old_vals[i], new_vals[i]) is not None for i in range(n))):
+        replaced = set(range(n)) - idxs
     for i in sorted(idxs | replaced):
         e = c["elems"][i]
         if e["type"] == "nested":
@@ -461,4 +492,6 @@ def check(case):
             "sample": {"F": F, "before": src, "after_arg": new_arg}}
 
 
-ARMS = [HypArm("mixed", _strategy, check, budget={"quick": 4000, "thorough": 200000})]
+# few, long shards: hypothesis ramps the size of its examples up over the first hundreds of examples of a run
+ARMS = [HypArm("mixed", _strategy, check, budget={"quick": 6000, "thorough": 200000},
+               shards={"quick": 6, "thorough": 32})]
